@@ -87,6 +87,12 @@ func c08Vals(d ref.DT, n int, vs string) []interface{} {
 			}
 			e := []float64{big, 1, 1, -3, 0.5, big, 1, 1, 1}
 			v[i] = reflect.ValueOf(e[i%len(e)]).Convert(d.D.Type).Interface()
+		case "zeros": // float only: signed zeros are EQUAL - the first of them is the extreme, whatever its sign
+			e := []float64{math.Copysign(0, -1), 0, -1, 0, math.Copysign(0, -1), -2}
+			v[i] = reflect.ValueOf(e[i%len(e)]).Convert(d.D.Type).Interface()
+		case "zeros+": // the same for minima: +0 before -0, everything else positive
+			e := []float64{0, math.Copysign(0, -1), 1, math.Copysign(0, -1), 0, 2}
+			v[i] = reflect.ValueOf(e[i%len(e)]).Convert(d.D.Type).Interface()
 		case "overflow":
 			e := edgeVals(d)
 			v[i] = e[i%2] // min,max alternating (ints); for floats +-Inf
@@ -132,11 +138,11 @@ func runC08(r *core.Run) {
 					axesSets = append(axesSets, []int{2, 0})
 				}
 			}
-			for _, vs := range []string{"id", "ties", "overflow", "inf", "round"} {
+			for _, vs := range []string{"id", "ties", "overflow", "inf", "round", "zeros", "zeros+"} {
 				if d.Class == ref.CComplex && vs != "id" {
 					continue
 				}
-				if vs == "round" && !d.IsFloat() {
+				if (vs == "round" || vs == "zeros" || vs == "zeros+") && !d.IsFloat() {
 					continue
 				}
 				if vs == "inf" && (!d.IsFloat() || len(shape) > 2) {
@@ -153,6 +159,9 @@ func runC08(r *core.Run) {
 							continue
 						}
 						for _, axes := range axesSets {
+							if vs == "zeros" || vs == "zeros+" {
+								continue // signed zeros: judged for the arg-reductions below (Max/Min may return either zero)
+							}
 							if vs == "round" && (op.name != "Sum" || len(axes) != 1) {
 								// rounding partial sums: judged where the fold order is beyond doubt - the left fold along ONE axis
 								continue
